@@ -426,7 +426,7 @@ func (w *c01World) oracle(o *c01Obs) {
 			}
 			for _, c := range []chk{
 				{"C01:request-mismatch", got[4], a.request},
-				{"C01:childrequest-mismatch", got[6], a.child},
+				{"C01:request-mismatch", got[6], a.child}, // childRequest: same clause, before the min-raise
 				{"C01:used-mismatch", got[2], a.used},
 				{"C01:np-request-mismatch", got[5], a.npReq},
 				{"C01:np-used-mismatch", got[3], a.npUsed},
